@@ -7,6 +7,7 @@
 
 pub mod common;
 pub mod corpus;
+pub mod envsim;
 pub mod hashsim;
 pub mod lsp_corpus;
 pub mod lspsim;
@@ -28,6 +29,7 @@ pub fn main(args: &[String]) -> i32 {
     match cli.target.as_str() {
         "C10" | "hashsim" => hashsim::main(&cli),
         "C14" | "lspsim" => lspsim::main(&cli),
+        "C06" | "envsim" => envsim::main(&cli),
         other => {
             eprintln!("simctl: unknown target {}", other);
             EXIT_HARNESS
